@@ -210,6 +210,24 @@ def fam_file_leak(tier):
         "write": "f = open(path, 'a')\nf.write('x')\nprint(f.closed)\n",
         "two-files": "f = open(path)\ng = open(path)\nprint(f.read() == g.read())\n",
         "closed-explicitly": "f = open(path)\nprint(f.read())\nf.close()\nprint(f.closed)\n",
+        # the file escapes into something that reads it LATER, after the last statement naming it: lazy builtins, generators,
+        # bound methods, containers, closures, a second name
+        "lazy-enumerate": "f = open(path)\nrows = enumerate(f, 1)\nprint('x')\nprint(list(rows))\n",
+        "lazy-zip": "f = open(path)\npairs = zip(f, range(3))\nprint('x')\nprint(list(pairs))\n",
+        "lazy-map": "f = open(path)\nlines = map(str.strip, f)\nprint('x')\nprint(list(lines))\n",
+        "lazy-iter": "f = open(path)\nit = iter(f)\nprint('x')\nprint(next(it))\n",
+        "lazy-genexp": "f = open(path)\ngen = (l.upper() for l in f)\nprint('x')\nprint(list(gen))\n",
+        "lazy-filter": "f = open(path)\nkept = filter(None, f)\nprint('x')\nprint(list(kept))\n",
+        "bound-method": "f = open(path)\nread = f.read\nprint('x')\nprint(read())\n",
+        "in-container": "f = open(path)\nbox = [f]\nprint('x')\nprint(box[0].read())\n",
+        "alias-name": "f = open(path)\ng = f\nprint('x')\nprint(g.read())\n",
+        "closure": "f = open(path)\ndef later():\n    return f.read()\nprint('x')\nprint(later())\n",
+        "lambda": "f = open(path)\nlater = lambda: f.read()\nprint('x')\nprint(later())\n",
+        "eager-builtins": "f = open(path)\nprint(len(list(f)))\nprint('after')\n",
+        "print-to-file": "f = open(path, 'a')\nprint('more', file=f)\nprint('after')\n",
+        "for-enumerate": "f = open(path)\nfor i, line in enumerate(f):\n    print(i, line)\nprint('after')\n",
+        "returned-iterator": "def rows():\n    f = open(path)\n    return enumerate(f)\nprint(list(rows()))\n",
+        "yielded": "def rows():\n    f = open(path)\n    for line in f:\n        yield line\nprint(list(rows()))\n",
     }
     pre = "import os, tempfile\nfd, path = tempfile.mkstemp()\nos.write(fd, b'hello')\nos.close(fd)\n"
     for lab, body in shapes.items():
